@@ -371,7 +371,7 @@ func genCorruptArchive(t *rapid.T) BytesCase {
 		// the hostile part sits one level down: the control member is a tar whose './control' entry
 		// is a sparse file (old GNU 'S' header: a few bytes stored, a huge logical size the tar reader
 		// fills with NULs it makes up), a directory, a symlink, or declares more data than there is
-		kind := rapid.SampledFrom([]string{"sparse-2^20", "sparse-2^40", "sparse-2^62", "dir", "symlink", "short", "pax-sparse-control", "pax-sparse-other-before", "pax-sparse-other-after"}).Draw(t, "tarkind")
+		kind := rapid.SampledFrom([]string{"sparse-2^20", "sparse-2^40", "sparse-2^62", "dir", "symlink", "short", "pax-sparse-control", "pax-sparse-other-before", "pax-sparse-other-after", "size-claim-2^62", "size-claim-2^55", "size-claim-other-2^62"}).Draw(t, "tarkind")
 		note = "tarlevel:" + kind
 		var ctl []byte
 		switch kind {
@@ -389,6 +389,36 @@ func genCorruptArchive(t *rapid.T) BytesCase {
 				ctl = append(paxSparseEntry("./md5sums", 1<<40), good...)
 			default:
 				ctl = append(append([]byte{}, good...), paxSparseEntry("./triggers", 1<<40)...)
+			}
+			ctl = append(ctl, make([]byte, 1024)...)
+		case "size-claim-2^62", "size-claim-2^55", "size-claim-other-2^62":
+			// a regular, non-sparse entry whose header claims (GNU base-256 size field) far more
+			// bytes than any archive holds: the control file itself, or a file in front of it
+			text := "Package: x\nVersion: 1\nArchitecture: all\nMaintainer: A <a@b.c>\nDescription: d\n"
+			claim := func(name string, size int64) []byte {
+				e := rawTarEntry(name, '0', text)
+				for i := 124; i < 136; i++ {
+					e[i] = 0
+				}
+				e[124] = 0x80
+				for i, v := 135, size; i > 124 && v > 0; i, v = i-1, v>>8 {
+					e[i] = byte(v)
+				}
+				copy(e[148:], "        ")
+				sum := 0
+				for _, b := range e[:512] {
+					sum += int(b)
+				}
+				copy(e[148:], fmt.Sprintf("%06o\x00 ", sum))
+				return e
+			}
+			switch kind {
+			case "size-claim-2^62":
+				ctl = claim("./control", 1<<62)
+			case "size-claim-2^55":
+				ctl = claim("./control", 1<<55)
+			default:
+				ctl = append(claim("./md5sums", 1<<62), rawTarEntry("./control", '0', text)...)
 			}
 			ctl = append(ctl, make([]byte, 1024)...)
 		case "short":
@@ -481,7 +511,7 @@ func genCorruptArchive(t *rapid.T) BytesCase {
 
 var specC15Corrupt = Register(&Spec[BytesCase]{
 	Prop: "C15", Name: "corrupt",
-	Rule: "structured corruption of valid artefacts (C13 archives and C14 packages with stored/gzip members): one header column (name, mtime, uid, gid, mode, size, magic) of one member overwritten with negative, '+'-signed, huge, blank, non-numeric, NUL, hex or overflowing text; 2..4 numeric columns of one header made non-numeric at once; a member renamed '//' and later ones '/<offset>' (GNU long-name table and references); the control member replaced by a stored tar whose './control' entry is a GNU sparse file of 2^20 / 2^40 / 2^62 made-up bytes, a directory, a symlink, or cut short, or which carries - as ./control or next to it - a PAX-style sparse entry of 2^40 made-up bytes; one or both header magic bytes changed; truncation at a generated offset; a member duplicated (same or changed content), members reordered, a decoy control.*/data.* member with another extension (optionally a tar with 'Package: evil') inserted; a padding byte added or removed; a global magic byte flipped. Oracle: no panic; the Next() loop ends in io.EOF or an error within len/60+2 steps; every returned member sits behind a header ending 0x60 0x0A, has Size >= 0 and a reader delivering exactly Size bytes; deb.Load stays within a read budget and returns within 20 s; seven iterations / loads of the same bytes, and one through an io.SectionReader window of a larger buffer with a valid archive behind it, give the same outcome (the same error text, or the same extensions, control identity and member index). Non-trivial: >= 1 member returned or a first header parsed; distinct by bytes.",
+	Rule:  "structured corruption of valid artefacts (C13 archives and C14 packages with stored/gzip members): one header column (name, mtime, uid, gid, mode, size, magic) of one member overwritten with negative, '+'-signed, huge, blank, non-numeric, NUL, hex or overflowing text; 2..4 numeric columns of one header made non-numeric at once; a member renamed '//' and later ones '/<offset>' (GNU long-name table and references); the control member replaced by a stored tar whose './control' entry is a GNU sparse file of 2^20 / 2^40 / 2^62 made-up bytes, a directory, a symlink, or cut short, or which carries - as ./control or next to it - a PAX-style sparse entry of 2^40 made-up bytes, or a regular entry (./control or the file in front of it) whose base-256 size field claims 2^55 or 2^62 bytes; one or both header magic bytes changed; truncation at a generated offset; a member duplicated (same or changed content), members reordered, a decoy control.*/data.* member with another extension (optionally a tar with 'Package: evil') inserted; a padding byte added or removed; a global magic byte flipped. Oracle: no panic; the Next() loop ends in io.EOF or an error within len/60+2 steps; every returned member sits behind a header ending 0x60 0x0A, has Size >= 0 and a reader delivering exactly Size bytes; deb.Load stays within a read budget and returns within 20 s; seven iterations / loads of the same bytes, and one through an io.SectionReader window of a larger buffer with a valid archive behind it, give the same outcome (the same error text, or the same extensions, control identity and member index). Non-trivial: >= 1 member returned or a first header parsed; distinct by bytes.",
 	Check: checkBytesCase,
 })
 
@@ -533,7 +563,7 @@ func TestC15_TruncateExh(t *testing.T) {
 
 var specC15Truncate = Register(&Spec[BytesCase]{
 	Prop: "C15", Name: "truncate",
-	Rule: "for a few generated archives / packages: truncation at EVERY offset (stride 7 beyond 6000 bytes); oracle as C15/corrupt (exhaustive over the truncation points of each base artefact).",
+	Rule:  "for a few generated archives / packages: truncation at EVERY offset (stride 7 beyond 6000 bytes); oracle as C15/corrupt (exhaustive over the truncation points of each base artefact).",
 	Check: checkBytesCase,
 })
 
